@@ -726,12 +726,46 @@ class ModelsOps:
         fields = self.text_fields(text, "-") if isinstance(text, StrV) and getattr(self, "text_templates", False) else None
         if fields is not None and len(fields) != 3:
             I.raise_("ValueError", node)        # not of the form YYYY-MM-DD
-        c = I.choose(2, "fromisoformat", ["ValueError", "ok"])
-        if c == 0:
+        status = self.date_parts_status(fields) if fields is not None else "unknown"
+        if status == "invalid":
             I.raise_("ValueError", node)
+        if status != "valid":
+            c = I.choose(2, "fromisoformat", ["ValueError", "ok"])
+            if c == 0:
+                I.raise_("ValueError", node)
         if fields is None:
             return self.fresh_date("date")
         return DateV("date", *fields)
+
+    _DATE_RANGES = ((1, 9999, 9999), (1, 12, 12), (1, 28, 31))
+
+    def date_parts_status(self, vals):
+        """Is (year, month, day) a calendar date?  "valid" / "invalid" when the components decide it - constants by
+        their value, symbols by what the scenario states about them (`st.valid_date_parts`: the year / month / day of
+        a date that exists) - and "unknown" otherwise."""
+        if len(vals) != 3 or not all(isinstance(x, Num) for x in vals):
+            return "unknown"
+        known = getattr(self.st, "valid_date_parts", None) or set()
+        res = "valid"
+        rfs = [self.st.norm(x.rf) for x in vals]
+        for pos, rf in enumerate(rfs):
+            lo, sure, hi = self._DATE_RANGES[pos]
+            if rf.is_const():
+                v = rf.const_value()
+                if v != int(v) or not lo <= v <= hi:
+                    return "invalid"
+                if pos == 2 and rfs[1].is_const() and 1 <= rfs[1].const_value() <= 12:
+                    # the length of a given month (29 February depends on the year)
+                    n = (31, 28, 31, 30, 31, 30, 31, 31, 30, 31, 30, 31)[int(rfs[1].const_value()) - 1]
+                    if v > n + (1 if n == 28 else 0):
+                        return "invalid"
+                    if v > n:
+                        res = "unknown"
+                elif v > sure:
+                    res = "unknown"
+            elif (repr(rf), pos) not in known:
+                res = "unknown"
+        return res
 
     def text_parts(self, v):
         """Template parts of a text value: ("lit", str) / ("val", value[, spec])."""
@@ -1080,10 +1114,14 @@ class ModelsOps:
         if name == "type":
             return self.type_of(args[0], node)
         if name == "date":
-            c = I.choose(2, "date()", ["ValueError", "ok"])
-            if c == 0:
-                I.raise_("ValueError", node)
             vals = list(args) + [kwargs[k_] for k_ in ("year", "month", "day") if k_ in kwargs]
+            status = self.date_parts_status(vals)
+            if status == "invalid":
+                I.raise_("ValueError", node)
+            if status != "valid":
+                c = I.choose(2, "date()", ["ValueError", "ok"])
+                if c == 0:
+                    I.raise_("ValueError", node)
             if len(vals) == 3 and all(isinstance(x, Num) for x in vals):
                 return DateV("date", *vals)
             return self.fresh_date("date")
